@@ -65,6 +65,11 @@ def case_strategy(draw):
             op["workers"] = draw(st.sampled_from([1, 1, 1, 2]))
         if kind == "build":
             op.update(cfg=draw(st.one_of(st.none(), st.integers(0, len(pool) - 1))), force=draw(st.sampled_from([False, False, True])), leafsize=draw(st.sampled_from([16, 16, 16, 2, 64])))
+            # a build may be interrupted (exception while the trees of the k-th patch are built,
+            # e.g. out of memory or Ctrl-C): the patches before are rebuilt, the others are not
+            op["interrupt_after"] = draw(st.sampled_from([None, None, None, 0, 1, 2]))
+            if op["interrupt_after"] is not None:
+                op["workers"] = 1
         elif kind in ("auto", "hist"):
             op.update(cfg=draw(st.integers(0, len(pool) - 1)))
             if kind == "auto":
@@ -85,6 +90,41 @@ def cfg_dict(case, i):
 
 class StepTimeout(Exception):
     pass
+
+
+class _Interrupt(Exception):
+    pass
+
+
+class interrupted_build:
+    """makes the library's per-patch tree construction raise when it is called for the
+    (k+1)-th time inside the block and swallows that exception (k None: no interruption)"""
+
+    def __init__(self, k):
+        self.k, self.fired, self.calls = k, False, 0
+
+    def __enter__(self):
+        if self.k is not None:
+            import yaw.catalog.trees as trees
+
+            self._orig = trees.build_trees
+
+            def build_trees(*a, **kw):
+                if self.calls >= self.k:
+                    self.fired = True
+                    raise _Interrupt()
+                self.calls += 1
+                return self._orig(*a, **kw)
+
+            trees.build_trees = build_trees
+        return self
+
+    def __exit__(self, et, ev, tb):
+        if self.k is not None:
+            import yaw.catalog.trees as trees
+
+            trees.build_trees = self._orig
+        return et is not None and issubclass(et, _Interrupt)
 
 
 class real_workers:
@@ -180,7 +220,7 @@ def run_case(case):
                 if w > 1:
                     ck.cls("step-on-real-worker-processes")
                 if op["op"] == "build":
-                    with real_workers(w):
+                    with real_workers(w), interrupted_build(op.get("interrupt_after")) as intr:
                         if op["cfg"] is None:
                             cats[op["cat"]].build_trees(None, force=op["force"], leafsize=op["leafsize"], max_workers=w)
                             sig = "unbinned"
@@ -189,8 +229,8 @@ def run_case(case):
                             cats[op["cat"]].build_trees(p["edges"], closed=p["closed"], force=op["force"], leafsize=op["leafsize"], max_workers=w)
                             sig = (tuple(p["edges"]), p["closed"])
                     odd_leafsize |= op["leafsize"] != 16
-                    last[op["cat"]] = sig
-                    ck.cls("op:build" + (":force" if op["force"] else ""))
+                    last[op["cat"]] = "mixed" if intr.fired else sig
+                    ck.cls("op:build" + (":force" if op["force"] else "") + (":interrupted" if intr.fired else ""))
                     continue
                 # ---- measuring step
                 p = case["pool"][op["cfg"]]
